@@ -181,15 +181,20 @@ def run (s : St) : List Op → St × List Out
 
 /-! ## Observations, computed from pointers and `len` only -/
 
-/-- `Values()` / `ForEach`: follow `Front()`, `Next()` until `nil` (fuel bounds the walk). -/
+/-- `listElement.Value()`: `value := l.value.Load(); if value == nil { return zero }; return *value` — only the
+sentinels (reachable by a walk on a ring corrupted by a stale handle) have no value. -/
+def valueOf (s : St) (e : Nat) : Nat := if e < 3 then 0 else (s.heap e).val
+
+/-- `Range` / `ForEach` / `Values()`: `for e := l.Front(); e != nil; e = e.Next() { callback(e.Value()) }`
+(fuel bounds the walk). -/
 def walkF (s : St) : Nat → Nat → List Nat
   | 0, _ => []
-  | f + 1, e => if e = 0 then [] else (s.heap e).val :: walkF s f (nextOf s e)
+  | f + 1, e => if e = 0 then [] else valueOf s e :: walkF s f (nextOf s e)
 
-/-- `ForEachReverse`: follow `Back()`, `Prev()` until `nil`. -/
+/-- `RangeReverse` / `ForEachReverse`: `for e := l.Back(); e != nil; e = e.Prev() { callback(e.Value()) }`. -/
 def walkB (s : St) : Nat → Nat → List Nat
   | 0, _ => []
-  | f + 1, e => if e = 0 then [] else (s.heap e).val :: walkB s f (prevOf s e)
+  | f + 1, e => if e = 0 then [] else valueOf s e :: walkB s f (prevOf s e)
 
 /-- The element handles met by the forward walk. -/
 def walkIds (s : St) : Nat → Nat → List Nat
@@ -242,6 +247,13 @@ def showOut : Out → String
 def showList (s : St) (l : Bool) : String :=
   s!"{s.len l} f={showId (front s l)} b={showId (back s l)} {showWalk s (walkF s (bound s + 1) (front s l))} {showWalk s (walkB s (bound s + 1) (back s l))}"
 
+/-- `ForEach` / `ForEachReverse` with a callback that returns an error at its `k`-th call (`k ≥ 1`): the values
+the callback received and whether the traversal was aborted (the error is then returned). -/
+def forEachAbort (xs : List Nat) (k : Nat) : List Nat × Bool :=
+  if k ≠ 0 ∧ k ≤ xs.length then (xs.take k, true) else (xs, false)
+
+def showAbort (r : List Nat × Bool) : String := (if r.2 then "err " else "ok ") ++ showNatList r.1
+
 def showHandles (s : St) : String :=
   " ".intercalate ((List.range (s.fresh - 3)).map fun k =>
     let e := k + 3
@@ -266,6 +278,14 @@ def compact (s : St) : St :=
 def stepLine (s : St) (toks : List String) : St × String :=
   match toks with
   | ["obs"] => (s, showObs s)
+  | ["fe", l, k] =>
+    match parseL l, k.toNat? with
+    | some l, some k => (s, showAbort (forEachAbort (walkF s (bound s + 1) (front s l)) k))
+    | _, _ => (s, "bad-op")
+  | ["fer", l, k] =>
+    match parseL l, k.toNat? with
+    | some l, some k => (s, showAbort (forEachAbort (walkB s (bound s + 1) (back s l)) k))
+    | _, _ => (s, "bad-op")
   | _ =>
     match parseOp toks with
     | some op => let r := step s op; (compact r.1, showOut r.2)
